@@ -224,7 +224,7 @@ def run_check(pid, spec, args, seed, work, t0):
                         "-test.fuzzcachedir", os.path.join(work, "fuzzcache", j["name"]),
                         "-test.parallel", str(cfg.get("parallel", args.jobs))]
             if j.get("rapid", True) and j.get("kind") not in ("fuzz", "exec"):
-                cmd += ["-rapid.checks", str(cfg.get("checks", 100)), "-rapid.seed", str(rapid_seed(seed, jidx, sh)),
+                cmd += ["-test.v", "-rapid.checks", str(cfg.get("checks", 100)), "-rapid.seed", str(rapid_seed(seed, jidx, sh)),
                         "-rapid.shrinktime", cfg.get("shrinktime", "20s")]
                 if replay and replay.get("failfile_content"):
                     cmd += ["-rapid.failfile", failfile]
